@@ -29,3 +29,30 @@ Theorem C17_chain_clock_per_call : forall O now x5c roots, roots <> nil -> x5c <
   validate_chain O now x5c roots = Ok tt -> o_chain O now x5c roots = ChainOk.
 Proof. exact validate_chain_uses_call_clock. Qed.
 Print Assumptions C17_chain_clock_per_call.
+
+(* ---- round 11: "the same response verified again after the clock has left the window is rejected" ---- *)
+Theorem C17_accepted_then_expires : forall now ts, timestamp_ok now ts = true ->
+  forall now', now + 21 <= now' -> timestamp_ok now' ts = false.
+Proof. exact timestamp_expires. Qed.
+Print Assumptions C17_accepted_then_expires.
+
+Theorem C17_stays_expired : forall now ts, ts < now * 1000 - 10000 ->
+  forall now', now <= now' -> timestamp_ok now' ts = false.
+Proof. exact timestamp_stays_expired. Qed.
+Print Assumptions C17_stays_expired.
+
+(* the accepting clocks of one timestamp form a single interval spanning at most 20 s *)
+Theorem C17_accepting_clocks_convex : forall n1 n2 n3 ts, n1 <= n2 <= n3 ->
+  timestamp_ok n1 ts = true -> timestamp_ok n3 ts = true -> timestamp_ok n2 ts = true.
+Proof. exact timestamp_clocks_convex. Qed.
+Print Assumptions C17_accepting_clocks_convex.
+
+Theorem C17_accepting_clocks_bounded : forall n1 n2 ts,
+  timestamp_ok n1 ts = true -> timestamp_ok n2 ts = true -> Z.abs (n2 - n1) <= 20.
+Proof. exact timestamp_clocks_bounded. Qed.
+Print Assumptions C17_accepting_clocks_bounded.
+
+Example C17_window_nonvacuous :
+  timestamp_ok 1700000000 1700000005000 = true /\ timestamp_ok 1700000020 1700000005000 = false /\
+  timestamp_ok 1699999995 1700000005000 = true /\ timestamp_ok 1699999994 1700000005000 = false.
+Proof. vm_compute. repeat split. Qed.
